@@ -6,13 +6,19 @@
    AttributeError (op_string 'conj' on a node whose category is atomic: `node.cat.left`), IndexError (empty batch).
    The rule tables come from GenTables.v (prolog_op_mapping, prolog_ja_combinators), regenerated from the source on every run.
 
-   str.lower(): modelled exactly for A-Z (`lower`); every other code point is left unchanged.  That is what Python does for all
-   ASCII text and for caseless scripts (kana, kanji, ...); it is NOT what Python does for non-ASCII cased letters (e.g. U+00C9, or
-   U+0130 which lowers to two code points).  RESTRICTION: the model is the printer's behaviour for category base names / `case`
-   values on which `str.lower` acts only on A-Z (`asciib` is a sufficient boolean test); the correspondence stays inside it. *)
+   The header lines (_prolog_header) are not written here: prolog_header is the generated GenFmt.prolog_header_src (translate/gen_fmt.py reads
+   depccg/printer/prolog.py on every run).  A reader that takes the declarations apart instead of stripping them as a fixed text is in
+   FmtPrologHeader.v.
+
+   str.lower(): one character at a time.  A-Z by the ASCII rule (`lower_c`); a code point >= 128 by the generated table GenFmt.py_lower_table,
+   which translate/gen_fmt.py fills with chr(c).lower() of the running interpreter for every code point that str.lower changes (so U+00C9 -> U+00E9,
+   U+0130 -> two code points, ...); every other code point is left alone.  That is str.lower exactly, EXCEPT for the code points of
+   GenFmt.py_lower_contextual (CPython has one: U+03A3, whose lower-casing depends on its neighbours - final sigma): a text that contains one of
+   them is outside the model (`lower_dom` is the boolean test; the correspondence skips and counts such trees).  FmtPrologHeaderProofs.v proves
+   that on ASCII text - every category of the shipped inventories - this is the A-Z rule alone. *)
 From Coq Require Import List NArith Bool Arith String Ascii.
 Import ListNotations.
-Require Import Cat Tree GenTables Fmt.
+Require Import Cat Tree GenTables GenFmt Fmt.
 Local Open Scope N_scope.
 
 (* ---------- small texts ---------- *)
@@ -43,15 +49,26 @@ Definition k_inflForm : text := Eval vm_compute in T "inflectionForm".
 Definition k_inflType : text := Eval vm_compute in T "inflectionType".
 Definition k_case : text := Eval vm_compute in T "case".
 
-(* ---------- str.lower() on A-Z ---------- *)
+(* ---------- str.lower() ---------- *)
 Definition lower_c (c : N) : N := if (65 <=? c) && (c <=? 90) then c + 32 else c.
-Definition lower (s : text) : text := map lower_c s.
+Fixpoint lower_lookup (c : N) (tbl : list (N * list N)) : option (list N) :=
+  match tbl with [] => None | (k, v) :: r => if N.eqb c k then Some v else lower_lookup c r end.
+Definition lower_cs (c : N) : text :=
+  if c <? 128 then [lower_c c] else match lower_lookup c py_lower_table with Some v => v | None => [c] end.
+Definition lower (s : text) : text := flat_map lower_cs s.
+(* no character whose lower-casing depends on its context *)
+Definition lower_dom (s : text) : bool := forallb (fun c => negb (existsb (N.eqb c) py_lower_contextual)) s.
 Definition asciib (s : text) : bool := forallb (fun c => c <? 128) s.
 (* every text of a category that the printers lower-case is ASCII: base names, and the values of a three-valued feature *)
 Definition feat_asciib (f : feat) : bool :=
   match f with FTer _ v1 _ v2 _ v3 => asciib v1 && asciib v2 && asciib v3 | _ => true end.
 Fixpoint cat_asciib (c : cat) : bool :=
   match c with Atom b f => asciib b && feat_asciib f | Fun l _ r => cat_asciib l && cat_asciib r end.
+(* every text of a category that the printers lower-case is inside the model of str.lower *)
+Definition feat_lower_dom (f : feat) : bool :=
+  match f with FTer _ v1 _ v2 _ v3 => lower_dom v1 && lower_dom v2 && lower_dom v3 | _ => true end.
+Fixpoint cat_lower_dom (c : cat) : bool :=
+  match c with Atom b f => lower_dom b && feat_lower_dom f | Fun l _ r => cat_lower_dom l && cat_lower_dom r end.
 
 (* ---------- _escape_prolog: text.replace("'", "\\'") ---------- *)
 Definition esc_pl (s : text) : text := flat_map (fun c => if N.eqb c cQ then [cBS; cQ] else [c]) s.
@@ -124,10 +141,7 @@ Fixpoint pl_rec_en (t : tree) (d : nat) : option text :=
 Definition print_prolog_en (k : nat) (t : tree) : option text :=
   option_map (fun s => s_ccg ++ [cLP] ++ show_nat k ++ s_cnl ++ s ++ [cRP; 46; cNL]) (pl_rec_en t 1).
 
-Definition prolog_header : text :=
-  Eval vm_compute in
-    (T ":- op(601, xfx, (/))." ++ [10] ++ T ":- op(601, xfx, (\))." ++ [10] ++ T ":- multifile ccg/2, id/2." ++ [10] ++
-     T ":- discontiguous ccg/2, id/2." ++ [10])%list.
+Definition prolog_header : text := prolog_header_src.        (* GenFmt.v: _prolog_header as the source has it *)
 
 (* to_string(batch, format='prolog') for English = to_prolog_en: print(header); print(_prolog_string(tree, k)) for every tree *)
 Definition prolog_en_doc (b : list (list tree)) : option text :=
